@@ -5,14 +5,14 @@ a near-pole angle and angles outside the principal range) x every (l, m) up to l
 
 Oracles (vf/oracles/harm.py): definition from exact rational Legendre coefficients evaluated in
 mpmath on the unit vector (l <= 12 quick / 24 thorough); float64 normalised recursion for
-l_max in {50, 100, 200}; Legendre addition theorem on all ordered pairs of directions; angular
+l_max in {60, 200} (thorough: 400); Legendre addition theorem on all ordered pairs of directions; angular
 derivatives by mp.diff of the oracle; Cartesian closed forms for l <= 3; round trips for the
 coordinate conversion.
 
 Readings (DESIGN 3.0): the definition clause is enforced for polar angle in [0, pi] and every real
 azimuth; outside [0, pi] the two implementations must agree with each other and the derivative
 routine must return the derivative of ``generate_real_spherical_harmonics``.  At the poles
-(|tan(polar)| < 1e-10) only finite values are required of the polar derivative.
+(|tan(polar)| < 1e-10) the polar derivative must be zero (documented convention).
 """
 
 from __future__ import annotations
@@ -204,7 +204,12 @@ def _deriv_shard(arg):
                                   f"d/d(azimuth) Y(l={l}, m={m}) at ({theta[j]:.6g}, {phi[j]:.6g}): {out[0, row, j]!r}, true {d_az!r}",
                                   dict(case, l=l, m=m, point=j))
             if pole:
-                continue  # documented convention at the poles: finite values only
+                # documented convention: the polar derivative is (numerically) zero at the poles
+                if abs(out[1, row, j]) > 1e-10 * (l + 1) ** 2:
+                    res.violation("derivative:polar:not-zero-at-pole",
+                                  f"d/d(polar) Y(l={l}, m={m}) at the pole polar={phi[j]!r} (azimuth {theta[j]:.6g}) is "
+                                  f"{out[1, row, j]!r}; the documented convention is zero", dict(case, l=l, m=m, point=j))
+                continue
             d_po = float(mp.diff(lambda b: harm.ylm_mp_angles(l, m, t, b), p))
             near = abs(np.sin(phi[j])) < 1e-6
             if abs(out[1, row, j] - d_po) > (1e-5 if near else tol) * (1 + abs(d_po)):
@@ -301,7 +306,7 @@ def run(ctx):
     for which in ("principal", "outside"):
         jobs.append(("values", (lv, ctx.seed, which)))
         jobs.append(("deriv", (ld, ctx.seed, which)))
-    for lmax in ((50, 100, 200) if ctx.thorough else (50, 120)):
+    for lmax in ((60, 200, 400) if ctx.thorough else (60, 200)):
         jobs.append(("high", (lmax, ctx.seed)))
     for res in lattice.pmap(_dispatch, jobs, ctx.workers):
         ctx.merge(res)
